@@ -125,6 +125,14 @@ func (c *NoiseGrpcConn) Write(b []byte) (int, error) {
 	return c.noise.Flush(c.ProxyConn)
 }
 
+// resetNextMsg drops the unread remainder of the record read last.
+func (c *NoiseGrpcConn) resetNextMsg() {
+	c.nextMsgMtx.Lock()
+	defer c.nextMsgMtx.Unlock()
+
+	c.nextMsg = nil
+}
+
 // LocalAddr returns the local address of this connection.
 //
 // NOTE: This is part of the Conn interface.
@@ -176,6 +184,11 @@ func (c *NoiseGrpcConn) ClientHandshake(_ context.Context, _ string,
 		return nil, nil, fmt.Errorf("invalid connection type")
 	}
 	c.ProxyConn = transportConn
+
+	// This object outlives a single connection: what the previous
+	// connection left unread of its last record must not be handed out as
+	// the first bytes of this one.
+	c.resetNextMsg()
 
 	// First, initialize a new noise machine with our static long term, and
 	// passphraseEntropy.
@@ -237,6 +250,11 @@ func (c *NoiseGrpcConn) ServerHandshake(conn net.Conn) (net.Conn,
 		return nil, nil, fmt.Errorf("invalid connection type")
 	}
 	c.ProxyConn = transportConn
+
+	// This object outlives a single connection: what the previous
+	// connection left unread of its last record must not be handed out as
+	// the first bytes of this one.
+	c.resetNextMsg()
 
 	// First, we'll initialize a new state machine with our static key,
 	// remote static key, passphrase, and also the authentication data.
